@@ -11,6 +11,7 @@ import ChessVerif.Props.C11
 import ChessVerif.Lemmas.KingMoves
 import ChessVerif.Lemmas.CastleSafe
 import ChessVerif.Lemmas.GenShapeWf
+import ChessVerif.Lemmas.EpExact
 namespace Chess.Props
 
 /-- the rules-level move a packed engine move denotes in position p -/
@@ -180,5 +181,142 @@ theorem C01_no_duplicates (p : Position) (hwf : Spec.wf (Chess.absPos p) = true)
     and a promotion piece N/B/R/Q exactly when a pawn arrives on an end rank -/
 theorem C01_move_shape (p : Position) (hwf : Spec.wf (Chess.absPos p) = true) : genShapeB p = true :=
   genShapeB_of_wf p hwf
+
+/-- **the pin scan is sound**: in a well-formed position whose side to move is not in check, every pseudo-legal ordinary move (not
+    castling, not en passant, not a king move) of a piece that `generate_pins` does not name is legal — moving it cannot expose the king.
+    (Lemmas/PinScan.lean: the lsb/msb scans return the first two occupied squares of the ray, kernel tables over king square × ray ×
+    subset; Lemmas/Unpinned.lean: a slider that sees the king after the move sits behind the origin with nothing else in between, which is
+    what the scan finds; Lemmas/UnpinnedSpec.lean: the rules-level statement.) -/
+theorem C01_unpinned_legal (p : Position) (hwf : Spec.wf (Chess.absPos p) = true) (hnic : Spec.inCheck p.board p.side = false)
+    (m : Spec.SMove) (hm : m ∈ Spec.pseudoMoves (Chess.absPos p))
+    (hnc : Spec.isCastle p.board m = false) (hnep : Spec.isEpCapture (Chess.absPos p) m = false)
+    (hnk : kindOf (p.board.getD m.src 0) ≠ KING)
+    (hunp : ∀ pin, pin ∈ genPins (BBs.of p) p.board p.side → pinSquare pin ≠ m.src) :
+    m ∈ Spec.legalMoves (Chess.absPos p) :=
+  unpinned_legal p hwf hnic m hm hnc hnep hnk hunp
+
+/-- **C01, EXACT whenever no en-passant square is set**: on every well-formed position in which no en-passant square is set — in
+    check (single or double) or not, with pinned pieces or not — the generated list contains exactly the codes of the rules' legal moves:
+    no illegal move, no legal move missing (and, by `C01_no_duplicates`, none twice).
+    Out of check (Lemmas/ExactNoCheck.lean): the seven set-wise pawn groups against the rules' per-pawn list in both directions
+    (PawnExact*.lean), knights through the leaper sets of C11, bishops/rooks/queens through `Spec.slide` = the bitboard ray walk
+    (SliderExact.lean), king steps and castling (earlier theorems), pinned pieces along their pin line only (Pinned*.lean, PinGeo*.lean).
+    Double check (DoubleCheck.lean): only king moves on both sides.  Single check (SingleCheck*.lean, ExactSingleCheck.lean): the
+    capture mask is the checker's square, the push mask `LINES[k][c]` without its end points is the set of empty squares strictly
+    between the king and a sliding checker (kernel table `betweenOK`), an unpinned piece arriving there leaves the king safe, any other
+    ordinary move leaves the checker in place, and a pinned piece has no legal move at all.
+    Open: positions with an en-passant square (the capture itself and its rank test) — decided by the differential. -/
+theorem C01_exact_noep (p : Position) (hwf : Spec.wf (Chess.absPos p) = true) (hep : p.ep = 64) (code : Nat) :
+    code ∈ genMoves p ↔ ∃ m, m ∈ Spec.legalMoves (Chess.absPos p) ∧ codeOf (Chess.absPos p) m = code :=
+  exact_noep p hwf hep code
+
+/-- **C01, EXACT ON EVERY WELL-FORMED POSITION**: the generated list contains exactly the codes of the rules' legal moves — en-passant
+    square or not, in check or not, pinned pieces or not.  `C01_exact_noep` covers the positions without an en-passant square; with
+    one, clearing it keeps the position well-formed and removes exactly the en-passant captures from the rules' legal moves and from the
+    generated list (Lemmas/NoEpGen.lean, NoEpSpec.lean, ExactUpToEp.lean), and an en-passant capture is generated iff it is legal
+    (Lemmas/EpLegal.lean: legality = the own king not attacked on the bitboards with the capturer moved and the captured pawn removed;
+    EpAttack/EpLines.lean: a slider sees the king over that occupancy in exactly four situations; EpRetro.lean: "the double push was
+    itself legal" (part of `Spec.wf`) excludes the line that only the pushed pawn shields and the interposition on the en-passant
+    square; EpGeoTab/EpGeo.lean: kernel tables `lineOK`, `adjOK` for the geometry of capturer, target, captured pawn and origin;
+    EpSafe.lean: attacked ⇔ another checker remains ∨ the capturer leaves its pin line ∨ capturer and captured pawn alone shielded the
+    king on its rank; EpGenBasic.lean: what `generate_enpassant` emits; EpExact.lean: the rank test = that rank exposure, the mask
+    test = "the only checker is the pushed pawn", the pinned-pawn branch = capture along the pin diagonal out of check). -/
+theorem C01_exact (p : Position) (hwf : Spec.wf (Chess.absPos p) = true) (code : Nat) :
+    code ∈ genMoves p ↔ ∃ m, m ∈ Spec.legalMoves (Chess.absPos p) ∧ codeOf (Chess.absPos p) m = code :=
+  exact_all p hwf code
+
+theorem legal_iff_mem (s : Spec.SPos) (m : Spec.SMove) : Spec.legal s m = true ↔ m ∈ Spec.legalMoves s := by
+  unfold Spec.legal Spec.legalMoves
+  rw [List.mem_filter, Bool.and_eq_true, List.contains_iff_mem]
+
+/-- the engine's code of a legal move decodes to that move -/
+theorem decode_codeOf (p : Position) (hwf : Spec.wf (Chess.absPos p) = true) (m : Spec.SMove) (hm : m ∈ Spec.legalMoves (Chess.absPos p)) :
+    decodeMove p (codeOf (Chess.absPos p) m) = m := by
+  have hps : m ∈ Spec.pseudoMoves (Chess.absPos p) := by unfold Spec.legalMoves at hm; exact (List.mem_filter.1 hm).1
+  have sok := stepOK_of_pseudo _ hwf m hps
+  unfold codeOf decodeMove
+  by_cases hc : Spec.isCastle (Chess.absPos p).board m = true
+  · rw [if_pos hc]
+    unfold Spec.isCastle at hc
+    simp only [Bool.and_eq_true, Bool.or_eq_true, decide_eq_true_eq] at hc
+    obtain ⟨hsrc, hpr, _, _⟩ := sok.castle ⟨hc.1, hc.2⟩
+    have hsrc' : m.src = if p.side = 0 then 4 else 60 := hsrc
+    by_cases hd : m.dst = m.src + 2
+    · rw [if_pos hd]
+      have e1 : moveCastling (mkCastling KING_CASTLING) = KING_CASTLING := by decide
+      rw [if_pos e1]
+      cases m with
+      | mk a b c =>
+        simp only at hsrc' hpr hd ⊢
+        subst hpr
+        by_cases h0 : p.side = 0
+        · rw [if_pos h0] at hsrc' ⊢; simp [if_pos h0]; omega
+        · rw [if_neg h0] at hsrc' ⊢; simp [if_neg h0]; omega
+    · rw [if_neg hd]
+      have e1 : ¬ moveCastling (mkCastling QUEEN_CASTLING) = KING_CASTLING := by decide
+      have e2 : moveCastling (mkCastling QUEEN_CASTLING) = QUEEN_CASTLING := by decide
+      rw [if_neg e1, if_pos e2]
+      have hd2 : m.dst + 2 = m.src := by rcases hc.2 with e | e; exact absurd e hd; exact e
+      cases m with
+      | mk a b c =>
+        simp only at hsrc' hpr hd2 ⊢
+        subst hpr
+        by_cases h0 : p.side = 0
+        · rw [if_pos h0] at hsrc' ⊢; simp [if_pos h0]; omega
+        · rw [if_neg h0] at hsrc' ⊢; simp [if_neg h0]; omega
+  · rw [if_neg hc]
+    obtain ⟨e1, e2, e3, e4⟩ := C16_encoding m.src m.dst m.promo sok.src sok.dst (by have := sok.promo.1; omega)
+    rw [e4, if_neg (by decide), if_neg (by decide), e1, e2, e3]
+
+/-- **C01, the full statement on every well-formed position**: no move twice, every generated move legal under the rules, every legal
+    move generated — in the vocabulary of `C01_Statement` (decoded moves, the rules' `legal` predicate) -/
+theorem C01_movegen_exact_pos (p : Position) (hwf : Spec.wf (absPos p) = true) :
+    (genMoves p).Nodup ∧ (∀ m, m ∈ genMoves p → Spec.legal (absPos p) (decodeMove p m) = true) ∧
+    (∀ sm, Spec.legal (absPos p) sm = true → ∃ m, m ∈ genMoves p ∧ decodeMove p m = sm) := by
+  have hwf' : Spec.wf (Chess.absPos p) = true := hwf
+  refine ⟨C01_no_duplicates p hwf', ?_, ?_⟩
+  · intro c hc
+    obtain ⟨m, hm, hcode⟩ := (exact_all p hwf' c).1 hc
+    rw [← hcode, decode_codeOf p hwf' m hm]
+    exact (legal_iff_mem _ m).2 hm
+  · intro sm hsm
+    have hm : sm ∈ Spec.legalMoves (Chess.absPos p) := (legal_iff_mem _ sm).1 hsm
+    exact ⟨codeOf (Chess.absPos p) sm, (exact_all p hwf' _).2 ⟨sm, hm, rfl⟩, decode_codeOf p hwf' sm hm⟩
+
+/-- **C01**: the full statement -/
+theorem C01_movegen_exact : C01_Statement := by
+  intro T s p hwf
+  exact C01_movegen_exact_pos p hwf
+
+/-- non-vacuity: a well-formed position with an en-passant square (`4k3/8/8/3pP3/8/8/8/4K3 w - d6`): 7 generated codes, one of them
+    en-passant-shaped -/
+def c01EpBoard : List Nat := (((List.replicate 64 0).set 4 6).set 35 7).set 36 1 |>.set 60 12
+def c01Ep : Position := { side := 0, halfmove := 0, ply := 1, board := c01EpBoard, castling := 0, ep := 43, hash := {}, history := [] }
+set_option maxRecDepth 100000 in
+example : Spec.wf (Chess.absPos c01Ep) = true ∧ c01Ep.ep ≠ 64 ∧ (genMoves c01Ep).length = 7 ∧ mkMove 36 43 ∈ genMoves c01Ep ∧
+    Spec.isEpCapture (Chess.absPos c01Ep) ⟨36, 43, 0⟩ = true := by decide +kernel
+
+/-- non-vacuity 1: the initial position (20 legal moves, all generated) -/
+def c01StartBoard : List Nat :=
+  [4, 2, 3, 5, 6, 3, 2, 4, 1, 1, 1, 1, 1, 1, 1, 1] ++ List.replicate 32 0 ++ [7, 7, 7, 7, 7, 7, 7, 7, 10, 8, 9, 11, 12, 9, 8, 10]
+def c01Start : Position := { side := 0, halfmove := 0, ply := 1, board := c01StartBoard, castling := 15, ep := 64, hash := {}, history := [] }
+set_option maxRecDepth 100000 in
+example : Spec.wf (Chess.absPos c01Start) = true ∧ c01Start.ep = 64 ∧ (genMoves c01Start).length = 20 := by decide +kernel
+
+/-- non-vacuity 2: a single check by a bishop with a pinned knight that could otherwise interpose
+    (`4k3/4r3/6R1/8/7b/8/3PN3/4K3 w`): king steps and the rook's interposition only -/
+def c01CheckBoard : List Nat :=
+  (((((List.replicate 64 0).set 4 6).set 11 1).set 12 2).set 31 9).set 46 4 |>.set 52 10 |>.set 60 12
+def c01Check : Position := { side := 0, halfmove := 0, ply := 1, board := c01CheckBoard, castling := 0, ep := 64, hash := {}, history := [] }
+set_option maxRecDepth 100000 in
+example : Spec.wf (Chess.absPos c01Check) = true ∧ c01Check.ep = 64 ∧ Spec.inCheck c01Check.board c01Check.side = true ∧
+    (genPins (BBs.of c01Check) c01Check.board c01Check.side).length = 1 ∧ (genMoves c01Check).length = 3 := by decide +kernel
+
+/-- non-vacuity 3: a double check (`4k3/4r3/8/8/7b/8/3P4/4K3 w`): king moves only -/
+def c01DblBoard : List Nat := ((((List.replicate 64 0).set 4 6).set 11 1).set 31 9).set 52 10 |>.set 60 12
+def c01Dbl : Position := { side := 0, halfmove := 0, ply := 1, board := c01DblBoard, castling := 0, ep := 64, hash := {}, history := [] }
+set_option maxRecDepth 100000 in
+example : Spec.wf (Chess.absPos c01Dbl) = true ∧ c01Dbl.ep = 64 ∧
+    moreThanOne (checkersBB (BBs.of c01Dbl) c01Dbl.board c01Dbl.side) = true ∧ (genMoves c01Dbl).length = 2 := by decide +kernel
 
 end Chess.Props
